@@ -257,12 +257,19 @@ def concrete_history(p, seed, steps=200):
     rng = random.Random(seed)
     out = {"program": p.id, "raised": False, "steps_run": 0}
     with quiet():
-        for dt in (0.1, 0.05, 0.07):
-            for with_sensor in (False, True):
-                ekf = pyh.build_ekf_float(p, p.calibration_values, k=None)
+        # very small sensor noise only for single-reading sensors: with several (nearly) redundant readings S becomes
+        # numerically singular (condition number ~ 1/noise) and the loss of accuracy is conditioning, not the
+        # "rounding relative to magnitude" the property speaks about (bounded condition number: stated bound)
+        single = all(len(rs) == 1 for rs in p.sensors.values())
+        regimes = ((0.1, 1.0), (0.05, 1.0), (0.07, 1.0)) + (((0.1, 1e-9), (0.05, 1e-7)) if single else ())
+        for dt, noise_scale in regimes:
+            for with_sensor in ((False, True) if noise_scale == 1.0 else (True,)):
+                sn_ = {k_: {r: v_ * noise_scale for r, v_ in rs.items()} for k_, rs in p.sensor_noise.items()}
+                ekf = pyh.build_ekf_float(p, p.calibration_values, k=None, sn=sn_)
                 st = ekf.State(**{s: 0.25 * (i + 1) for i, s in enumerate(p.s_state())})
                 cov = ekf.Covariance()
                 ctl = ekf.Control(**{c: 0.5 for c in p.control})
+                scale = 1.0
                 for k in range(steps):
                     try:
                         st, cov = ekf.process_model(dt, st, cov, ctl)
@@ -270,16 +277,20 @@ def concrete_history(p, seed, steps=200):
                             for key in p.s_sensors():
                                 rd = ekf.make_reading(key, **{r: 0.1 * k for r in p.sensors[key]})
                                 st, cov = ekf.sensor_model(st, cov, sensor_key=key, sensor_reading=rd)
-                    except AssertionError as ex:
-                        out.update({"raised": True, "dt": dt, "step": k + 1, "with_sensor": with_sensor, "message": str(ex).replace("\n", " ")[:200], "cov_norm": float(np.linalg.norm(cov.data))})
+                    except (AssertionError, np.linalg.LinAlgError) as ex:
+                        out.update({"raised": True, "dt": dt, "noise_scale": noise_scale, "step": k + 1, "with_sensor": with_sensor, "message": (type(ex).__name__ + ": " + str(ex)).replace("\n", " ")[:200], "cov_norm": float(np.linalg.norm(cov.data))})
                         return out
                     out["steps_run"] += 1
                     Pm = np.array(cov.data, dtype=float)
-                    if not np.allclose(Pm, Pm.T, rtol=1e-9, atol=1e-12 * max(1.0, np.abs(Pm).max())):
+                    # "up to rounding relative to their magnitude": the rounding of P - K H P is relative to the operands
+                    # (the prior), not to a posterior that may be orders of magnitude smaller; so the scale is the largest
+                    # covariance magnitude seen so far in this history
+                    scale = max(scale, float(np.abs(Pm).max()), 1.0)
+                    if not np.allclose(Pm, Pm.T, rtol=1e-9, atol=1e-10 * scale):
                         out.update({"raised": True, "dt": dt, "step": k + 1, "with_sensor": with_sensor, "message": "covariance not symmetric", "cov_norm": float(np.linalg.norm(Pm))})
                         return out
                     mn = float(np.linalg.eigvalsh((Pm + Pm.T) / 2).min())
-                    if mn < -1e-9 * max(1.0, np.abs(Pm).max()):
+                    if mn < -1e-9 * scale:
                         out.update({"raised": True, "dt": dt, "step": k + 1, "with_sensor": with_sensor, "message": f"covariance not PSD relative to magnitude: min eig {mn}", "cov_norm": float(np.linalg.norm(Pm))})
                         return out
     return out
@@ -328,6 +339,28 @@ def task_cpp_symmetry(p, tier, seed):
                 _, Xs = l.inverse_cuts()[0]
                 m = len(Xs)
                 ax = [Xs[i][j] == Xs[j][i] for i in range(m) for j in range(i + 1, m)]
+            if scn != "predict":
+                Sarg, _ = l.inverse_cuts()[0]
+                for i in range(len(Sarg)):
+                    for j in range(i + 1, len(Sarg)):
+
+                        def replay_s(e, scn=scn):
+                            e = dict(e)
+                            for nm in pyh.input_env(p):
+                                e.setdefault(nm, 0.5)
+                            ss_ = p.s_state()
+                            for a_i, a in enumerate(ss_):
+                                for b in ss_[a_i:]:
+                                    e.setdefault(f"P_{a}_{b}", 1.0 if a == b else 0.25)
+                            for k_ in p.sensors:
+                                for r in p.sensors[k_]:
+                                    e.setdefault(f"z_{k_}_{r}", 0.25)
+                            outs, _, _ = cf.run_concrete(scn, {k_: v for k_, v in e.items() if isinstance(v, (int, float))})
+                            vals = [outs[f"P_{a}_{b}"] for a in range(n) for b in range(n)]
+                            finite = all(v == v for v in vals)
+                            return {"impl": 0.0 if finite else float("nan"), "spec": 0.0}
+
+                        prove_equal(part, PID, f"cpp/{p.id}/{scn}: innovation covariance S[{i},{j}] == S[{j},{i}] (argument of the inverse)", Sarg[i][j], Sarg[j][i], [], tmo, replay=replay_s, key=f"cpp/{p.id}/{scn}/S-symmetry", info={"kind": "cpp-symmetry", "program": p.id, "scenario": scn, "i": 0, "j": 0})
             for i in range(n):
                 for j in range(i + 1, n):
 
@@ -366,7 +399,7 @@ def run(tier, seed):
         tasks.append((task_update_lemma, (n, m, tier, seed)))
     for n in (1, 2, 3, 4):
         tasks.append((task_gate, (n, tier, seed)))
-    for p in [CP.P2(), CP.P1(), CP.P13()] + ([] if tier == "quick" else [CP.P8()]):
+    for p in [CP.P2(), CP.P1(), CP.P13(), CP.P16()] + ([] if tier == "quick" else [CP.P8()]):
         tasks.append((task_history, (p, tier, seed)))
     for p in [CP.P13(), CP.P2()] + ([] if tier == "quick" else [CP.P3(), CP.P8()]):
         tasks.append((task_cpp_symmetry, (p, tier, seed)))
